@@ -829,6 +829,9 @@ class Text(ContentElement):
     if value is not None:
       raise RuntimeError("Text nodes cannot have style properties")
 
+  def add_animation_step(self, step):
+    raise RuntimeError("Text nodes cannot have style properties")
+
   def set_begin(self, time_offset):
     if time_offset is not None:
       raise RuntimeError("Text nodes do not have temporal properties")
